@@ -191,6 +191,7 @@ def _match_groups(rows, key, groups):
 
 # ------------------------------------------------------------------------------------------------ listby / groupby
 
+KCASE = ['x', 'X', 'y', None, 'Y']                   # family 'case'
 KINF = [float('-inf'), float('inf'), 1, None]       # family 'inf': infinities are ordinary float keys (two distinct ones)
 
 
@@ -202,6 +203,10 @@ def gen_tables(maxrows):
         for xs in itertools.product(range(len(KINF)), repeat=n):
             if any(i < 2 for i in xs):
                 yield {'t': 'inf', 'a': list(xs)}
+    for n in range(2, min(maxrows, 4) + 1):
+        for xs in itertools.product(range(len(KCASE)), repeat=n):
+            if 0 in xs and 1 in xs:
+                yield {'t': 'case', 'a': list(xs)}          # string keys that differ only in letter case are different keys
     for n in range(1, maxrows + 1):
         for xs in itertools.product(range(9), repeat=n):
             yield {'t': 'two', 'ab': list(xs)}
@@ -210,8 +215,8 @@ def gen_tables(maxrows):
 def check_regroup(case):
     from pyg_base import dictable
     out = Out()
-    if case['t'] in ('one', 'inf'):
-        a = [(KEY6 if case['t'] == 'one' else KINF)[i] for i in case['a']]
+    if case['t'] in ('one', 'inf', 'case'):
+        a = [{'one': KEY6, 'inf': KINF, 'case': KCASE}[case['t']][i] for i in case['a']]
         b = [B_FIX[i] for i in range(len(a))]
     else:
         a = [A3[i // 3] for i in case['ab']]
@@ -226,7 +231,7 @@ def check_regroup(case):
 
     orders = {}
 
-    for key, spelling in (CHOICES if case['t'] == 'one' else CHOICES_TWO):
+    for key, spelling in (CHOICES if case['t'] == 'one' else CHOICES_TWO):          # families inf / case / two: the small menu
         out.sub()
         nonkey = [k for k in ALL if k not in key]
         arg = '*%r' % (key,) if spelling == 'args' else repr(list(key))
@@ -280,6 +285,53 @@ def check_regroup(case):
 
         if not _unchanged(d, snap):
             out.viol('operand-mutated', 'listby/groupby/sort(%s) changed the table %s they were called on' % (arg, tdesc), op='listby/groupby', **sig)
+
+    # ---------------------------------------------------------------- a non-key column that is itself called 'grp', and a custom grp label naming an existing column
+    if n and case['t'] == 'two':
+        for variant in ('column-called-grp', 'label-names-a-column'):
+            out.sub()
+            sig = dict(nkeys=1, spelling=variant)
+            try:
+                if variant == 'column-called-grp':
+                    d = dictable(a=list(a), grp=list(cols['c']), f=list(cols['f']))
+                    names = {'grp': 'c', 'f': 'f'}            # column of the sub-table -> column of `rows`
+                    G = d.groupby('a')
+                    label = 'grp'
+                    U = G.ungroup()
+                else:
+                    d = build()
+                    names = {'b': 'b', 'c': 'c', 'f': 'f'}
+                    G = d.groupby('a', grp='c')
+                    label = 'c'
+                    U = G.ungroup('c')
+                out.call(2)
+                groups = _groups([(x,) for x in a])
+                kg, rg = _rows(G)
+                if set(kg) != {'a', label} or len(rg) != len(groups):
+                    out.viol('groupby-columns', "groupby('a'%s) on a table with columns %s: result columns %s with %d rows, expected ['a', %r] with %d rows" % (
+                        '' if variant == 'column-called-grp' else ", grp='c'", list(d.keys()), kg, len(rg), label, len(groups)), op='groupby', **sig)
+                    continue
+                gis, err = _match_groups(rg, ('a',), groups)
+                if err:
+                    out.viol('groupby-wrong-keys', '%s: %s' % (variant, err), op='groupby', **sig)
+                    continue
+                bad = None
+                for r, gi in zip(rg, gis):
+                    ks, rs = _rows(r[label])
+                    exp = [{k: rows[i][src] for k, src in names.items()} for i in groups[gi][1]]
+                    if set(ks) != set(names) or len(rs) != len(exp) or not all(_row_eq(g, e) for g, e in zip(rs, exp)):
+                        bad = 'key %s: sub-table columns %s rows %s, expected columns %s rows %s' % (show(groups[gi][0]), ks, show(rs), sorted(names), show(exp))
+                        break
+                if bad:
+                    out.viol('groupby-wrong-subtable', "%s, a=%s: %s" % (variant, show(a), bad), op='groupby', **sig)
+                    continue
+                ku, ru = _rows(U)
+                want = [dict({'a': rows[i]['a']}, **{k: rows[i][src] for k, src in names.items()}) for i in range(n)]
+                if set(ku) != {'a'} | set(names) or not _multiset_eq(ru, want):
+                    out.viol('ungroup-not-original', '%s, a=%s: ungroup gives columns %s rows %s, expected the original rows %s' % (variant, show(a), ku, show(ru, 300), show(want, 300)),
+                             op='ungroup', **sig)
+            except Exception as e:
+                out.viol('groupby-raised', '%s on a=%s raised %s: %s' % (variant, show(a), type(e).__name__, e), op='groupby', **sig)
 
     # ---------------------------------------------------------------- the SAME table object regrouped again after a key cell was overwritten in place
     if n >= 2 and not _keyeq((a[0],), (a[n - 1],)):
